@@ -4,6 +4,7 @@ import (
 	"context"
 	"fmt"
 	"strings"
+	"time"
 
 	p9p "github.com/frobnitzem/go-p9p"
 	"github.com/frobnitzem/go-p9p/zzverif/refcodec"
@@ -68,6 +69,8 @@ func reqID(m p9p.Message) int {
 		return int(v.Fid)
 	case p9p.MessageTauth:
 		return int(v.Afid)
+	case p9p.MessageTversion:
+		return int(v.MSize) - 5000
 	}
 	return -1
 }
@@ -91,7 +94,8 @@ func resultFor(m p9p.Message) (p9p.Message, error) {
 	case p9p.MessageTread:
 		return p9p.MessageRread{Data: []byte(fmt.Sprintf("r%d", id))}, nil
 	case p9p.MessageTstat:
-		return p9p.MessageRstat{Stat: p9p.Dir{Name: fmt.Sprintf("r%d", id)}}, nil
+		// timestamps on the wire's range (whole seconds, 32 bits)
+		return p9p.MessageRstat{Stat: p9p.Dir{Name: fmt.Sprintf("r%d", id), AccessTime: time.Unix(1, 0).UTC(), ModTime: time.Unix(2, 0).UTC()}}, nil
 	case p9p.MessageTwrite:
 		return p9p.MessageRwrite{Count: uint32(1000 + id)}, nil
 	case p9p.MessageTopen:
@@ -110,6 +114,8 @@ func resultFor(m p9p.Message) (p9p.Message, error) {
 		return p9p.MessageRattach{Qid: p9p.Qid{Path: uint64(1000 + id)}}, nil
 	case p9p.MessageTauth:
 		return p9p.MessageRauth{Qid: p9p.Qid{Path: uint64(1000 + id)}}, nil
+	case p9p.MessageTversion:
+		return p9p.MessageRversion{MSize: uint32(1000 + id), Version: "9P2000"}, nil
 	}
 	return nil, fmt.Errorf("e%d", id)
 }
@@ -134,6 +140,8 @@ func replyID(m p9p.Message) int {
 		return int(v.Qid.Path) - 1000
 	case p9p.MessageRauth:
 		return int(v.Qid.Path) - 1000
+	case p9p.MessageRversion:
+		return int(v.MSize) - 1000
 	case p9p.MessageRwalk:
 		if len(v.Qids) == 1 {
 			return int(v.Qids[0].Path) - 1000
